@@ -74,7 +74,25 @@ SHAPES = [
     "a and b", "a or b", "a and b or c", "a and (b or c)", "not a and b",
     "a if b else c", "(a if b else c) + d", "a if b < c else d - a", "a if b else (c if d else a)",
     "a + 1", "2 * a - 3", "(a + b) * (c - d)", "a - -b", "+a",
+    # nested prefix operators: `--a` / `++a` are C++ decrements/increments, `!!a` is fine
+    "-(-a)", "- -a", "+(+a)", "-(+a)", "+(-a)", "-(-(-a))", "not (not a)", "-(-a) + b", "a - (-(-b))", "a + (+(+b))", "-(-1)", "a * -(-b)", "-(not a)", "not -a",
 ]
+
+
+def _unparen(t):
+    """strip redundant outer parentheses (only when the first `(` closes at the very end)"""
+    t = (t or "").strip()
+    while t.startswith("(") and t.endswith(")"):
+        depth = 0
+        for i, ch in enumerate(t):
+            depth += ch == "("
+            depth -= ch == ")"
+            if depth == 0:
+                break
+        if i != len(t) - 1:
+            break
+        t = t[1:-1].strip()
+    return t
 
 
 class ArmEffect(PathFacts):
@@ -304,14 +322,15 @@ def run(cx):
             sound = out.kind == "raise" or (txt is not None and (("static_cast<float>" in txt or "(float)" in txt or "1.0" in txt) if k == "Div" else any(h in txt for h in ("__redu_floordiv", "__redu_mod", "floor(", "pow(", "__redu_pow"))))
             r.check(sound, key, (pm.rel, pm.const("_BIN").lineno), f"{msg} (emitted: `{txt}`)")
         else:
-            r.check(txt == f"(a {want} b)", f"binop[{k}]->{want}", (pm.rel, pm.const("_BIN").lineno), f"`a {PY_OPS[k]} b` is emitted as `{txt}`; expected `(a {want} b)`")
+            r.check(_unparen(txt) == f"a {want} b", f"binop[{k}]->{want}", (pm.rel, pm.const("_BIN").lineno), f"`a {PY_OPS[k]} b` is emitted as `{txt}`; expected `(a {want} b)`")
     for k, tok in CMP.items():
         pyt = {"Eq": "==", "NotEq": "!=", "Lt": "<", "LtE": "<=", "Gt": ">", "GtE": ">="}[k]
         out = translate(f"a {pyt} b")
-        r.check(out.kind == "return" and out.value == f"(a {tok} b)", f"compare[{k}]->{tok}", (pm.rel, pm.const("_CMP").lineno), f"`a {pyt} b` -> {out!r}")
+        r.check(out.kind == "return" and _unparen(out.value) == f"a {tok} b", f"compare[{k}]->{tok}", (pm.rel, pm.const("_CMP").lineno), f"`a {pyt} b` -> {out!r}")
     for src, want in (("-a", "(-a)"), ("+a", "(+a)"), ("not a", "(!a)"), ("a and b", "(a && b)"), ("a or b", "(a || b)"), ("a if b else c", "(b ? a : c)")):
         out = translate(src)
-        r.check(out.kind == "return" and out.value == want, f"form[{src}]", (pm, tce), f"`{src}` -> {out!r}, expected `{want}`")
+        # the operator and operand order are decided here; which parentheses are needed is decided by C01-SHAPE on clang's tree
+        r.check(out.kind == "return" and _unparen(out.value) == _unparen(want), f"form[{src}]", (pm, tce), f"`{src}` -> {out!r}, expected `{want}` (outer parentheses optional)")
     # and/or in value context
     from . import c02  # the type side of the same defect is C02's boolop finding
     out = translate("a or b")
@@ -342,13 +361,27 @@ def run(cx):
     tu = "#include <Arduino.h>\n" + "\n".join(f"long shape_{i}(long a, long b, long c, long d) {{ return {txt}; }}" for i, _s, txt in funcs)
     errs = cxx.typecheck(tu)
     if errs:
-        raise AnalysisError("shape translation unit does not compile: " + errs[0])
+        # a shape whose translation is not C++ at all (`--1`, `++(a)` on an rvalue) is reported for that shape; the others go on
+        bad_ids = set()
+        for e_ in errs:
+            m_ = re.search(r"shape_(\d+)\(", e_)
+            if not m_:
+                raise AnalysisError("shape translation unit does not compile: " + e_)
+            bad_ids.add(int(m_.group(1)))
+        for i, src, txt in funcs:
+            if i in bad_ids:
+                r.fail(f"shape[{src}]", (pm, tce), f"`{src}` is emitted as `{txt}`, which is not a C++ expression with Python's meaning: " + next(e_ for e_ in errs if f"shape_{i}(" in e_).split("   [")[0])
+        funcs = [f_ for f_ in funcs if f_[0] not in bad_ids]
+        tu = "#include <Arduino.h>\n" + "\n".join(f"long shape_{i}(long a, long b, long c, long d) {{ return {txt}; }}" for i, _s, txt in funcs)
+        errs2 = cxx.typecheck(tu)
+        if errs2:
+            raise AnalysisError("shape translation unit does not compile: " + errs2[0])
     trees = cxx.ast_functions(tu, [f"shape_{i}" for i, _s, _t in funcs])
     for i, src, txt in funcs:
         body = trees[f"shape_{i}"][0]["body"]
         got = strip_casts(body[0]["e"]) if body and body[0]["k"] == "return" else None
         want = py_to_tree(ast.parse(src, mode="eval").body)
-        r.check(got == want, f"shape[{src}]", (pm, tce), f"`{src}` is emitted as `{txt}` which C++ parses as {show(got) if got else '?'}; Python's structure is {show(want)}", sample=f"{src} -> {txt}")
+        r.check(got == want, f"shape[{src}]", (pm, tce), f"`{src}` is emitted as `{txt}` which C++ parses as {show(got) if got else '?'}; Python's structure is {show(want)}" + (" (C++ reads `--`/`++` as a decrement/increment of the variable, not as two signs)" if ("--" in txt or "++" in txt) else ""), sample=f"{src} -> {txt}")
 
     # ---- C01-IR-EXH --------------------------------------------------------------------------
     r = cx.rule("C01-IR-EXH", "every IR class the parser can construct is consumed by an emitter arm (or is a container consumed by emit()/a parent arm): a statement cannot be built and then dropped", floor=55, exhaustive=True)
